@@ -561,6 +561,29 @@ func (pi *parseInterp) mutatesMethod(m string, depth int) bool {
 
 func (pi *parseInterp) cond(e ast.Expr, in []*pState, fr *pFrame) (t, f []*pState) {
 	e = ast.Unparen(e)
+	// a test of the current token hoisted into a local (`isX := p.current.Type == X || ...; if isX {`): the
+	// local's single definition is the condition (no token is consumed between a definition and its use as a
+	// condition in the same statement list)
+	if id, ok := e.(*ast.Ident); ok && fr != nil && fr.fd != nil {
+		if v, ok := pi.info.Uses[id].(*types.Var); ok && !v.IsField() {
+			var def ast.Expr
+			n := 0
+			ast.Inspect(fr.fd.Body, func(x ast.Node) bool {
+				if as, ok := x.(*ast.AssignStmt); ok && len(as.Lhs) == len(as.Rhs) {
+					for i, l := range as.Lhs {
+						if lid, ok := l.(*ast.Ident); ok && (pi.info.Defs[lid] == v || pi.info.Uses[lid] == v) {
+							n++
+							def = as.Rhs[i]
+						}
+					}
+				}
+				return true
+			})
+			if n == 1 && def != nil && pi.readsCurrent(def, 0) && !pi.mutates(def, 0) {
+				return pi.cond(def, in, fr)
+			}
+		}
+	}
 	switch x := e.(type) {
 	case *ast.UnaryExpr:
 		if x.Op == token.NOT {
@@ -634,6 +657,23 @@ func (pi *parseInterp) block(list []ast.Stmt, in []*pState, fr *pFrame) pFlow {
 
 func (pi *parseInterp) advance(in []*pState) []*pState {
 	var out []*pState
+	// the line-start flag depends on whether the consumed token is the line break: a state in which the current
+	// token may or may not be one is split first
+	if nl, hasNL := pi.kinds["TokenNewline"]; hasNL {
+		var split []*pState
+		for _, s := range in {
+			bit := kset(1) << uint(nl)
+			if s.T&bit != 0 && s.T != bit {
+				a, b := s.clone(), s.clone()
+				a.T = bit
+				b.T = s.T &^ bit
+				split = append(split, a, b)
+			} else {
+				split = append(split, s)
+			}
+		}
+		in = split
+	}
 	for _, s := range in {
 		n := s.clone()
 		nl, hasNL := pi.kinds["TokenNewline"]
